@@ -398,4 +398,176 @@ theorem invOut {cfg : Cfg} {s : State} (hr : Reach (lts cfg) s) : InvOut cfg s :
   | init => simp [InvOut, lts, init, Processor.init]
   | step a hr hst ih => exact invOut_step (Processor.invF (reach_proj hr)) (invCtl hr) ih hst
 
+/-! ### every subscriber, also one that has left, holds a subsequence of the common sequence -/
+
+def SublOK (s : State) (i : Nat) (u : Sub) : Prop :=
+  u.joinedAt ≤ s.out.length ∧ (u.seq ++ pend s i).Sublist (s.out.drop u.joinedAt)
+
+def InvSubl (s : State) : Prop := ∀ i u, s.subs[i]? = some u → SublOK s i u
+
+theorem sublist_mid {α : Type} (a b : List α) (x : α) : (a ++ b).Sublist (a ++ x :: b) :=
+  List.Sublist.append (List.Sublist.refl a) (List.sublist_cons_self x b)
+
+theorem pend_step_ne {s : State} {r : It} {i j : Nat} (he : s.epc = .sending r i) (hne : j ≠ i) (subs' : List Sub) :
+    pend { s with subs := subs', epc := .sending r (i + 1) } j = pend s j := by
+  simp only [pend, he]
+  by_cases h : i ≤ j
+  · have : i + 1 ≤ j := by omega
+    simp [h, this]
+  · have : ¬ i + 1 ≤ j := by omega
+    simp [h, this]
+
+theorem pend_step_eq {s : State} {r : It} {i : Nat} (he : s.epc = .sending r i) (subs' : List Sub) :
+    pend { s with subs := subs', epc := .sending r (i + 1) } i = [] ∧ pend s i = [r] := by
+  simp [pend, he]
+
+/-- One step of the fan-out on subscriber `i`: `u` becomes `u'`, whose sequence (without the pending
+item) is a subsequence of `u`'s sequence followed by the item. -/
+theorem subl_exec {s : State} {r : It} {i : Nat} {u u' : Sub} (h : InvSubl s) (he : s.epc = .sending r i)
+    (hu : s.subs[i]? = some u) (hj : u'.joinedAt = u.joinedAt) (hseq : u'.seq.Sublist (u.seq ++ [r])) :
+    InvSubl { s with subs := s.subs.set i u', epc := .sending r (i + 1) } := by
+  intro j x hx
+  rcases getElem?_set_cases hx with ⟨rfl, rfl, hlt⟩ | ⟨hne, hjx⟩
+  · have := h _ _ hu
+    obtain ⟨h1, h2⟩ := pend_step_eq he (s.subs.set j x)
+    simp only [SublOK, h1, h2, hj, List.append_nil] at *
+    exact ⟨this.1, hseq.trans this.2⟩
+  · have := h _ _ hjx
+    simp only [SublOK, pend_step_ne he hne] at *
+    exact this
+
+/-- A step of forwarder `i` that does not touch `out` or `epc`. -/
+theorem subl_fwd {s : State} {i : Nat} {u u' : Sub} (h : InvSubl s) (hu : s.subs[i]? = some u)
+    (hj : u'.joinedAt = u.joinedAt) (hseq : u'.seq.Sublist u.seq) : InvSubl (setSub s i u') := by
+  intro j x hx
+  rcases getElem?_set_cases (by simpa [setSub] using hx) with ⟨rfl, rfl, hlt⟩ | ⟨hne, hjx⟩
+  · have := h _ _ hu
+    simp only [SublOK, hj] at *
+    exact ⟨this.1, (List.Sublist.append hseq (List.Sublist.refl _)).trans this.2⟩
+  · exact h _ _ hjx
+
+theorem invSubl_step {cfg : Cfg} {s s' : State} {a : Label} (hC : InvCtl s) (h : InvSubl s)
+    (hst : step cfg s a = some s') : InvSubl s' := by
+  cases a
+  case proc l =>
+    unfold InvSubl at *
+    obtain ⟨p', hp, hc⟩ := procStep_cases (by simpa [step] using hst)
+    rcases hc with ⟨rfl, -⟩ | ⟨k, t, v, f, rfl, rfl⟩ | ⟨r, rfl, hpc, rfl⟩ | ⟨r, i, rfl, he, hi, rfl⟩
+    · exact h
+    · exact h
+    · intro j u hj
+      have := h j u hj
+      have hne : ∀ r i, s.epc ≠ .sending r i := by
+        intro r' i' he; have := hC.2.2.1 r' i' he; simp_all
+      simp only [SublOK, pend] at *
+      cases he : s.epc <;> simp_all
+    · intro j u hj
+      have := h j u hj
+      have hlt := lt_of_getElem? hj
+      simp only at hlt
+      have hn : ¬ i ≤ j := by omega
+      simp only [SublOK, pend, he, hn, ↓reduceIte] at *
+      exact this
+  case closeCall =>
+    simp only [step, closeCall] at hst
+    split at hst <;> try contradiction
+    obtain ⟨p', hp, rfl⟩ := Option.map_eq_some_iff.mp hst
+    exact h
+  case execLock =>
+    unfold InvSubl at *
+    bstep hst
+    · rename_i r he hcl
+      intro j u hj
+      have := h j u hj
+      have hlt := lt_of_getElem? hj
+      simp only at hlt
+      have hn : ¬ s.subs.length ≤ j := by omega
+      simp only [SublOK, pend, he, hn, ↓reduceIte] at *
+      exact this
+    · rename_i r he hcl
+      intro j u hj
+      have := h j u hj
+      simp only [SublOK, pend, he, Nat.zero_le, ↓reduceIte, List.append_nil, List.length_append, List.length_singleton] at *
+      refine ⟨by omega, ?_⟩
+      rw [List.drop_append_of_le_length this.1]
+      exact List.Sublist.append this.2 (List.Sublist.refl _)
+  case subAcquire =>
+    unfold InvSubl at *
+    bstep hst
+    · exact h
+    · intro j u hj
+      rw [List.getElem?_append] at hj
+      split at hj
+      · have := h j u hj
+        simp only [SublOK, pend] at *
+        exact this
+      · have hlt := lt_of_getElem? hj
+        simp only [List.length_singleton] at hlt
+        have hj' : j = s.subs.length := by omega
+        subst hj'
+        simp at hj; subst hj
+        simp only [SublOK, pend, Sub.new, Sub.seq, Sub.hand]
+        cases he : s.epc <;> simp_all [lockFree]
+  case send =>
+    bstep hst
+    rename_i _ r i he _ u hu hcond
+    exact subl_exec h he hu rfl (by simp [Sub.seq, Sub.hand])
+  case skipExit =>
+    bstep hst
+    rename_i _ r i he _ u hu hcond
+    exact subl_exec h he hu rfl (by simp [Sub.seq, Sub.hand])
+  case skipClose =>
+    bstep hst
+    rename_i _ r i he _ u hu hcond
+    exact subl_exec h he hu rfl (by simp [Sub.seq, Sub.hand])
+  case skipGone =>
+    bstep hst
+    rename_i _ r i he _ u hu hcond
+    exact subl_exec h he hu rfl (by simp [Sub.seq, Sub.hand])
+  case subCall => bstep hst; exact h
+  case subReturn => bstep hst; exact h
+  case closeLock => bstep hst; exact h
+  case closeReturn => bstep hst; exact h
+  case cancel i =>
+    bstep hst
+    rename_i u hu
+    exact subl_fwd h hu rfl (by simp [Sub.seq, Sub.hand])
+  case fwdTake i =>
+    bstep hst
+    rename_i _ u hu _ _ x rest hpc hb
+    exact subl_fwd h hu rfl (by simp [Sub.seq, Sub.hand, hpc, hb])
+  case fwdDeliver i =>
+    bstep hst
+    rename_i u hu _ x hpc
+    exact subl_fwd h hu rfl (by simp [Sub.seq, Sub.hand, hpc])
+  case fwdDropCtx i =>
+    bstep hst
+    rename_i _ u hu _ x hpc _
+    exact subl_fwd h hu rfl (by simpa [Sub.seq, Sub.hand, hpc] using sublist_mid u.delivered u.buf x)
+  case fwdDropClose i =>
+    bstep hst
+    rename_i _ u hu _ x hpc _
+    exact subl_fwd h hu rfl (by simpa [Sub.seq, Sub.hand, hpc] using sublist_mid u.delivered u.buf x)
+  case fwdExitCtx i =>
+    bstep hst
+    rename_i _ u hu _ hpc _
+    exact subl_fwd h hu rfl (by simp [Sub.seq, Sub.hand, hpc])
+  case fwdExitClose i =>
+    bstep hst
+    rename_i _ u hu _ hpc _
+    exact subl_fwd h hu rfl (by simp [Sub.seq, Sub.hand, hpc])
+  case fwdCloseExit i =>
+    bstep hst
+    rename_i u hu _ hpc
+    exact subl_fwd h hu rfl (by simp [Sub.seq, Sub.hand, hpc])
+  case fwdRemove i =>
+    bstep hst
+    rename_i _ u hu _ hpc _
+    exact subl_fwd h hu rfl (by simp [Sub.seq, Sub.hand, hpc])
+
+theorem invSubl {cfg : Cfg} {s : State} (hr : Reach (lts cfg) s) : InvSubl s := by
+  induction hr with
+  | init => simp [InvSubl, lts, init]
+  | step a hr hst ih => exact invSubl_step (invCtl hr) ih hst
+
 end Kit.Batcher
